@@ -17,8 +17,8 @@ use std::io::Read;
 use std::process::{Command, Stdio};
 use std::time::{Duration, Instant};
 
-pub const TOKENS: [&str; 52] = [
-    "2", "1e30", "0", "x", "m", "\"s\"", "\"a{", "}b\"", "(", ")", "[", "]", "{", "}", ",", ".", ":", "+", "-", "*", "/", "^", "!", "=", "==", "<", "->", "|>", "&&", "||", "²", "let", "fn", "unit", "dimension", "struct", "use", "if", "then", "else", "where", "per", "to", "@", "?", "…", "\n", "true", "sin", "print", "assert_eq", "Length",
+pub const TOKENS: [&str; 53] = [
+    ";", "2", "1e30", "0", "x", "m", "\"s\"", "\"a{", "}b\"", "(", ")", "[", "]", "{", "}", ",", ".", ":", "+", "-", "*", "/", "^", "!", "=", "==", "<", "->", "|>", "&&", "||", "²", "let", "fn", "unit", "dimension", "struct", "use", "if", "then", "else", "where", "per", "to", "@", "?", "…", "\n", "true", "sin", "print", "assert_eq", "Length",
 ];
 
 /// interpret + render the diagnostic, as every front end does; Err = panic
@@ -91,7 +91,8 @@ fn sweep_sep(rep: &mut Report, len: usize, alphabet: &[&str], with_prelude: bool
             let code = toks.join(sep);
             let mut ctx = base.clone();
             let t0 = Instant::now();
-            let r = exercise(&mut ctx, &code);
+            // in-process and uninterruptible: an input that never returns is reported by the watchdog
+            let r = watch::watched("C08", "code", &code, || exercise(&mut ctx, &code));
             let dt = t0.elapsed().as_secs_f64();
             a.n += 1;
             if dt > 2.0 {
@@ -603,7 +604,7 @@ fn sweep_histories(rep: &mut Report, alphabet: &'static [&'static str], tag: &st
                 let joined = joined.join("\n");
                 let mut ctx = base.clone();
                 steps += 1;
-                match exercise(&mut ctx, &joined) {
+                match watch::watched("C08", "history", &format!("ONE INPUT:\n{joined}"), || exercise(&mut ctx, &joined)) {
                     Ok("ok") => ok += 1,
                     Ok(_) => {}
                     Err(p) => {
@@ -616,7 +617,7 @@ fn sweep_histories(rep: &mut Report, alphabet: &'static [&'static str], tag: &st
             let mut ctx = base.clone();
             for (pos, &s) in seq.iter().enumerate() {
                 steps += 1;
-                match exercise(&mut ctx, alphabet[s]) {
+                match watch::watched("C08", "code", alphabet[s], || exercise(&mut ctx, alphabet[s])) {
                     Ok("ok") => ok += 1,
                     Ok(_) => {}
                     Err(p) => {
@@ -756,7 +757,7 @@ pub fn check(rep: &mut Report) {
     rep.set("extreme_cases", json!(cases.len()));
     rep.set("extreme_cases_handled_gracefully", json!(fine));
     rep.set("extreme_cases_crashing", json!(bad));
-    rep.rule = "(a) every token string of length <= L over an alphabet with one spelling of every token kind (52 tokens; prelude session: 36-token sub-alphabet at the top length), each interpreted in a fresh clone with the result echoed or the diagnostic rendered; (e) every character string of length <= 3 over a 76-character alphabet with one representative of every tokenizer character class (all superscript/subscript shapes, Unicode operator spellings, quotes, escapes, control and zero-width characters; thorough: length 4 over 56 of them); (b) every template x extreme value/repetition count, each in its own child process with an 8 s (quick) / 20 s (thorough) limit and a 6 GiB address-space limit; (c) every standard-library function x every argument tuple from per-type edge alphabets (numbers incl. NaN/inf and dimensionful values, ASCII/multi-byte/empty strings, lists, booleans, date-times, function values), in child processes; (d) every history of <= 4 (thorough 5) statements over an 18-statement alphabet that defines one name as functions of different arity, a variable, a unit, a struct and a function value and uses it in every call shape, on a session with core::lists, core::strings and units::si, run statement by statement and as one input, and likewise over a 12-statement alphabet of values of every kind, functions and variables capturing `ans` / `_`, and uses of them; non-trivial = accepted token strings + extreme cases + functions swept + accepted history statements".into();
+    rep.rule = "(a) every token string of length <= L over an alphabet with one spelling of every token kind (53 tokens; prelude session: 36-token sub-alphabet at the top length), each interpreted in a fresh clone with the result echoed or the diagnostic rendered; (e) every character string of length <= 3 over a 76-character alphabet with one representative of every tokenizer character class (all superscript/subscript shapes, Unicode operator spellings, quotes, escapes, control and zero-width characters; thorough: length 4 over 56 of them); (b) every template x extreme value/repetition count, each in its own child process with an 8 s (quick) / 20 s (thorough) limit and a 6 GiB address-space limit; (c) every standard-library function x every argument tuple from per-type edge alphabets (numbers incl. NaN/inf and dimensionful values, ASCII/multi-byte/empty strings, lists, booleans, date-times, function values), in child processes; (d) every history of <= 4 (thorough 5) statements over an 18-statement alphabet that defines one name as functions of different arity, a variable, a unit, a struct and a function value and uses it in every call shape, on a session with core::lists, core::strings and units::si, run statement by statement and as one input, and likewise over a 12-statement alphabet of values of every kind, functions and variables capturing `ans` / `_`, and uses of them; non-trivial = accepted token strings + extreme cases + functions swept + accepted history statements".into();
     rep.assumptions = vec![
         "the harness builds numbat with debug assertions and overflow checks (a 'checked build')".into(),
         "random byte soup is not in this family; tokenizer states needing longer contexts than L tokens are only reached through the templates".into(),
